@@ -21,6 +21,11 @@ HARNESSES = {
         bound=dict(quick="graphs of 1..3 nodes / <=2 edges as in C01 (h_graph::scheduling); nodes of one level executed in every order (2 or 6 permutations), task = one node evaluation (atomic)",
                    thorough="<=3 edges"),
         replay=dict(kind="check_graph", par_runs=10), timeout=dict(quick=1500, thorough=3300), max_paths=dict(quick=400000, thorough=3000000), heavy=True),
+    "flat_level_any_order": dict(props=["C02"], crates=CRC, fn=_wrap(h_graph.flat_level),
+        params=dict(quick=dict(N=3), thorough=dict(N=4)), witnesses=["reordered", "in-order"],
+        bound=dict(quick="one level of 2..3 independent leaves (true / false / data / failing each, both collect_all values) evaluated in every order: failing and unsatisfied indices ascending and complete, data outputs in node order, gas the saturating sum",
+                   thorough="2..4 leaves (identity / reverse / rotation for 4)"),
+        replay=dict(kind="check_flat", par_runs=10)),
     "outcomes_any_order": dict(props=["C02"], crates=CRC, fn=_wrap(lambda I, h, **kw: h_graph.scheduling(I, h, outcomes=True, **kw)),
         params=dict(quick=dict(N=2, NE=2), thorough=dict(N=3, NE=2)), witnesses=["reordered", "in-order"],
         bound=dict(quick="graphs of 1..2 nodes / <=2 edges, one node may fail / be unsatisfied / output data, both collect_all values: failing indices, data outputs and gas do not depend on the order",
